@@ -147,3 +147,9 @@ Print Assumptions C03_TypeValid_is_model.
 Theorem C03_DefaultFlags_is_model : Trans.Spec.T_DefaultFlags.
 Proof. exact Trans.Equiv.defaultFlags_equiv. Qed.
 Print Assumptions C03_DefaultFlags_is_model.
+
+(* message.nextPacketID, as the source has it now (the atomic counter, the loop that skips zero), is the model's next_pid
+   for EVERY value of the 64-bit counter - so C03_packet_ids speaks about the source *)
+Theorem C03_nextPacketID_is_model : Trans.Spec.T_nextPacketID.
+Proof. exact Trans.Equiv.nextPacketID_equiv. Qed.
+Print Assumptions C03_nextPacketID_is_model.
